@@ -418,3 +418,15 @@ package stake
 //@   ensures result == nil
 //@   ensures d.SelfPower >= govMinValPower[ctrler.govParams] ==> len(delegatees) == old(len(delegatees)) + 1 && delegatees[old(len(delegatees))] == d   [C10,C19]
 //@   ensures d.SelfPower < govMinValPower[ctrler.govParams] ==> len(delegatees) == old(len(delegatees))       [C10,C19]
+
+// ---- the validator set reported to governance (C15): the snapshot total is the sum of the TOTAL bonded powers of the
+// announced validators. vtotal(k) is the prefix sum over lastValidators[0..k] (a definition, stated as an assumption)
+//@ func (ctrler *StakeCtrler) Validators()
+//@   requires ctrler != nil
+//@   requires forall k :: 0 <= k && k < len(ctrler.lastValidators) ==> ctrler.lastValidators[k] != nil
+//@   assumes vtotal(-1) == 0 && (forall k :: 0 <= k && k < len(ctrler.lastValidators) ==> vtotal(k) == vtotal(k - 1) + ctrler.lastValidators[k].TotalPower)
+//@   allocates []*Validator, Validator
+//@   ensures result1 == vtotal(len(ctrler.lastValidators) - 1) && len(result0) == len(ctrler.lastValidators)   [C15]
+//@   loop 0: modifies elems(ret)
+//@   loop 0: invariant totalPower == vtotal(rangeindex) && len(ret) == rangeindex + 1
+//@   loop 0: invariant (arr(ret) == 0 && cap(ret) == 0) || loopfresh(arr(ret))
